@@ -737,6 +737,12 @@ func OptionalMatchSeveralFrames(q *Shape) bool {
 // the OPTIONAL MATCH is evaluated by the reference on the case's graph, returning the exported variables, and the
 // case is excluded only if two of those rows are equal (or the prefix cannot be evaluated).
 func OptionalMatchAfterDuplicableRows(q *Shape) bool {
+	firstOptional := -1
+	for _, m := range q.AllMatches() {
+		if m.Match.Optional && (firstOptional < 0 || m.Index < firstOptional) {
+			firstOptional = m.Index
+		}
+	}
 	for pi, p := range q.Parts {
 		mi := 0
 		for ci, rc := range p.Clauses {
@@ -761,9 +767,13 @@ func OptionalMatchAfterDuplicableRows(q *Shape) bool {
 			}
 			Visit(p.Projection, note)
 			Visit(p.Where, note)
+			// The narrowing by evaluation is used for the plain case only - the first OPTIONAL MATCH of the query,
+			// extending from a variable that is already bound; everywhere else the shape alone decides, as before
+			// (disconnected and chained OPTIONAL MATCHes have defects of their own behind this one).
+			narrow := m.Index == firstOptional && q.optionalMatchExtendsBoundVariable(pi, ci)
 			if pi > 0 {
 				// rows come out of a WITH
-				if q.incomingRowsRepeat(pi, ci, referenced) {
+				if !narrow || q.incomingRowsRepeat(pi, ci, referenced) {
 					return true
 				}
 				continue
@@ -796,7 +806,62 @@ func OptionalMatchAfterDuplicableRows(q *Shape) bool {
 					}
 				}
 			}
-			if candidate && q.incomingRowsRepeat(pi, ci, referenced) {
+			if candidate && (!narrow || q.incomingRowsRepeat(pi, ci, referenced)) {
+				return true
+			}
+		}
+	}
+	return false
+}
+
+// optionalMatchExtendsBoundVariable: some node, relationship or path variable of the OPTIONAL MATCH's pattern is bound
+// before the clause.
+func (q *Shape) optionalMatchExtendsBoundVariable(pi, ci int) bool {
+	bound := map[string]bool{}
+	if pi > 0 {
+		proj := q.Parts[pi-1].Projection
+		if proj == nil || proj.All {
+			return false
+		}
+		for _, it := range proj.Items {
+			if item, ok := it.(*cypher.ProjectionItem); ok && item != nil {
+				if item.Alias != nil {
+					bound[item.Alias.Symbol] = true
+				} else if v, ok := item.Expression.(*cypher.Variable); ok && v != nil {
+					bound[v.Symbol] = true
+				}
+			}
+		}
+	}
+	p := q.Parts[pi]
+	for _, earlier := range p.Clauses[:ci] {
+		if earlier == nil {
+			continue
+		}
+		if earlier.Unwind != nil {
+			bound[varName(earlier.Unwind.Variable)] = true
+		}
+		if earlier.Match != nil {
+			for _, pp := range earlier.Match.Pattern {
+				ps := patternShape(pp)
+				for _, n := range ps.Nodes {
+					bound[varName(n.Variable)] = true
+				}
+				for _, r := range ps.Rels {
+					bound[varName(r.Variable)] = true
+				}
+			}
+		}
+	}
+	delete(bound, "")
+	rc := p.Clauses[ci]
+	if rc == nil || rc.Match == nil {
+		return false
+	}
+	for _, pp := range rc.Match.Pattern {
+		ps := patternShape(pp)
+		for _, n := range ps.Nodes {
+			if bound[varName(n.Variable)] {
 				return true
 			}
 		}
@@ -1723,7 +1788,7 @@ func init() {
 }
 
 // MinMaxAliasUsedInExpression: WITH min(x.key) AS a (or max), or WITH x.key AS a, whose alias is later an operand of
-// a string predicate, an arithmetic expression or a function. Such an alias is a jsonb column (cypher_min /
+// a string predicate, an arithmetic expression, a function or a comparison with a function result / computed value. Such an alias is a jsonb column (cypher_min /
 // cypher_max return jsonb, a projected property lookup keeps the -> operator); a later string operation casts the
 // jsonb value to text, which is its JSON text with the quotes ("a"), so `$p starts with a` compares against the
 // quoted form (translate/function.go cypherMinMaxFunction, translate/projection.go translateProjectionItem).
@@ -1762,6 +1827,17 @@ func MinMaxAliasUsedInExpression(q *Shape) bool {
 		}
 		return false
 	}
+	textTyped := func(e cypher.Expression) bool {
+		switch t := e.(type) {
+		case *cypher.FunctionInvocation:
+			return t != nil
+		case *cypher.ArithmeticExpression:
+			return t != nil && len(t.Partials) > 0
+		case *cypher.Parenthetical:
+			return t != nil
+		}
+		return false
+	}
 	found := false
 	Visit(q.Model, func(n any) bool {
 		switch t := n.(type) {
@@ -1772,6 +1848,11 @@ func MinMaxAliasUsedInExpression(q *Shape) bool {
 					continue
 				}
 				if stringOperator(partial.Operator) && (isAlias(operand) || isAlias(partial.Right)) {
+					found = true
+				}
+				// any comparison against a text-typed operand (a function result, a concatenation) casts the alias
+				// to text the same way: `a4 > toUpper(n.name)` compares "a" (quotes included) with A
+				if (isAlias(operand) && textTyped(partial.Right)) || (isAlias(partial.Right) && textTyped(operand)) {
 					found = true
 				}
 				operand = partial.Right
